@@ -63,7 +63,7 @@ pub fn run(args: &Args) -> Report {
     let mut rep = Report::new();
     let base0 = std::env::var("VERIF_RUN_DIR").unwrap_or_else(|_| "/verif/.run/proc".to_string());
     for round in 0..rounds {
-        let tag = format!("q{}x{}y{}", std::process::id(), shard, round);
+        let tag = format!("q{}x{}y{}", vkit::proc_token(), shard, round);
         let base = format!("{}/iso_{}", base0, tag);
         let _ = std::fs::create_dir_all(format!("{base}/r/x"));
         // three domains: prefix "…a" vs "…ab" in one root, and the first prefix again in a nested root
